@@ -65,6 +65,16 @@ CLAIMED = {
         "on meshes up to ~60 faces; all validated by TLC (Trace_C07).",
    note="Clip scenarios are generated (not exhaustive); exact lattice geometry; valid 2-D meshes.",
    ref="5 C07"),
+ "C10": dict(
+   text="TLC checks for every mesh of the lattice family (2x2 squares quick, 3x2 thorough: quad / two triangles either diagonal / "
+        "absent) that the operational derivations of edge-node, face-edge, edge-face and face-face satisfy the consistency "
+        "relations (edges = consecutive node pairs, an edge lists exactly its faces, adjacency symmetric = edge sharing) and that "
+        "Normalise(Encode(table)) is the identity for every base / fill / transposition; the implementation's five normalised tables, "
+        "has_valid_* flags, dimension names and polygons for family and random meshes (to ~60 faces, concave faces) under sampled "
+        "(quick) or all valid (thorough, family) encodings are validated by TLC: identical faces, supplied tables used as given "
+        "(non-canonical edge numbering), all tables mutually consistent (Trace_C10).",
+   note="Derived edge numbering is free (relations); fe/ef supplied without en: only numbering-independent clauses; edge dimension declared or implied.",
+   ref="5 C10"),
  "C15": dict(
    text="TLC checks on the bounded universe that the specification's export list (valid cells only, ascending, each with its "
         "linear and native index) satisfies OnlyValidCells / EveryValidCellOnce / LinearOrder / IndexesIdentifyCell; files written "
